@@ -25,8 +25,8 @@ def implicitPos : FnKind → Nat → Bool
 
 /- `allowed c u inp out`: `out` is `inp` except that
   * a random() call outside ORDER BY may have become a `randnum` literal,
-  * a randomblob(<number literal w>) call outside ORDER BY may have become a `randblob` literal of
-    exactly max(w,1) bytes,
+  * a randomblob(<signed number literal>) call outside ORDER BY may have become a `randblob` literal of
+    exactly the number of bytes SQLite would have produced for that literal (`blobLenOfArgs`),
   * in a time-value position of a date/time-family call a `now` argument may have become the pinned
     literal, and the pinned literal may have been appended where the time value was absent;
 everything else - names, operators, literals, identifiers, the number and order of children - is
@@ -38,9 +38,7 @@ def allowed (c : Cfg) (u : Bool) : Node → Node → Bool
     | .lit k v =>
       !u && ((decide (classify name = .random) && k == "randnum") ||
         (decide (classify name = .randomblob) && k == "randblob" &&
-          (match args with
-           | .cons (.lit "number" w) .nil => (parseIntLit w).map (fun n => toString (max n 1)) == some v
-           | _ => false)))
+          ((blobLenOfArgs args).map (fun n => toString n) == some v)))
     | .call name' args' extra' =>
       name == name' && allowedArgs c u (classify name) 0 args args' && allowedList c u extra extra'
     | _ => false
@@ -85,8 +83,7 @@ theorem visitCall_replace_spec {c : Cfg} {st st1 : St} {name : String} {args : N
     (h : visitCall c st name args = .replace m st1) :
     st.ordered = 0 ∧
     ((classify name = .random ∧ ∃ v, m = .lit "randnum" v) ∨
-     (classify name = .randomblob ∧ ∃ w n, args = .cons (.lit "number" w) .nil ∧ parseIntLit w = some n ∧
-        m = .lit "randblob" (toString (max n 1)))) := by
+     (classify name = .randomblob ∧ ∃ n, blobLenOfArgs args = some n ∧ m = .lit "randblob" (toString n))) := by
   unfold visitCall at h
   cases hk : classify name <;> simp only [hk] at h
   · split at h <;> cases h
@@ -101,14 +98,12 @@ theorem visitCall_replace_spec {c : Cfg} {st st1 : St} {name : String} {args : N
   · split at h
     · rename_i hc
       simp only [Bool.and_eq_true, beq_iff_eq] at hc
-      split at h
-      · rename_i w
-        split at h
-        · rename_i n hp
-          cases h
-          exact ⟨hc.1, Or.inr ⟨rfl, w, n, rfl, hp, rfl⟩⟩
-        · cases h
-      · cases h
+      cases hb : blobLenOfArgs args with
+      | none => simp [hb] at h
+      | some n =>
+        simp only [hb] at h
+        cases h
+        exact ⟨hc.1, Or.inr ⟨rfl, n, rfl, rfl⟩⟩
     · cases h
   · cases h
 
@@ -139,9 +134,9 @@ theorem walk_allowed (c : Cfg) :
       simp only
       obtain ⟨h0, hm⟩ := visitCall_replace_spec h
       have hu' : u = false := by rw [hu, h0]; rfl
-      rcases hm with ⟨hk, v, hv⟩ | ⟨hk, w, n, ha, hp, hv⟩
+      rcases hm with ⟨hk, v, hv⟩ | ⟨hk, n, hb, hv⟩
       · subst hv; simp [allowed, hu', hk]
-      · subst hv; subst ha; simp [allowed, hu', hk, hp]
+      · subst hv; simp [allowed, hu', hk, hb]
     | keep tr st1 =>
       simp only
       have ho := (visitCall_keep_ordered h).1
